@@ -675,6 +675,7 @@ func init() {
 			"during the run a discovery update removes a third of the targets inside the retry sleep, a later one re-adds most of them, then a reload keeps or drops job jb; every second case also runs the real coordinator against a stub shard with unlimited room; " +
 			"monitors: arrival/departure/outcome/in-flight count of every request at the targets, Explore.Get results polled every 40 ms (not in the -race pass), POST bodies at the stub shard; oracle = per-target probe-lifecycle automaton per presence period (probed once asked for, single flight, retry no earlier than the interval and within interval+10 s, silence after success, at most one probe after removal), estimate = payload counts only after a success, no assignment before a successful probe; " +
 			"plus cases in which a job's HTTP client cannot be built when its targets are first asked for (CA file missing at that reload) and can after a later reload: within interval + 10 s of the repair every target must have been probed and carry a healthy estimate; and cases in which a reload changes a job's metric relabel rules and params before a new target of that job is probed for the first time (estimate under the new rules, request with the new params); and cases with a configured param that some targets override through a __param_ label (every probe carries its own target's params, whatever was probed before); " +
+			"one probe body in ten has 2500-5500 samples (several 64 KiB parser blocks); " +
 			"a -race pass repeats 2 cases without harness reads; non-trivial = at least half of the targets were probed; distinct = parameter tuple + target script hash",
 		Assumptions: []string{
 			"the retry interval is the real unexported 5 s; lower bounds use server-side departure times, which can only make the measured gap smaller than the real one by less than the loopback latency (the oracle needs no tolerance because the retry sleep starts after the client saw the response)",
